@@ -35,7 +35,7 @@ func TestMain(m *testing.M) {
 		"oracle 1 compares ASTs as fq's own JSON form; parenthesis nodes (TermTypeQuery without suffix) are removed on both sides, so only grouping that changes the tree counts",
 		"oracle 2 and the semantic part of oracle 3 run on the reference engine with debug/stderr defined as pass-through; programs with directives or names only the full grammar has ($__loc__, module-qualified names) usually do not compile there and then only the syntactic oracles apply",
 		"oracle 3 uses wrapper queries that are terms (a call, a literal, a parenthesised query), as both real callers (_cli_eval, _repl_eval) do; a non-term catch query is not a configuration fq uses",
-		"generated ?// alternatives bind the same variables and the left side of a generated update has no `a, b` (engine defects, see props/c07/NOTES.md); evaluation on the reference engine is bounded (8 s, 5000 outputs, 1.2 GiB heap, nesting 400) and a run that hits a bound makes that comparison inconclusive",
+		"generated ?// alternatives bind the same variables and the left side of a generated update has no `a, b` (engine defects, see props/c07/NOTES.md); evaluation on the reference engine is bounded (8 s, 5000 outputs, 500 MiB heap, nesting 400) and a run that hits a bound makes that comparison inconclusive",
 		"error messages are not compared",
 	)
 	harness.Main(m, "C11")
